@@ -225,7 +225,35 @@ def run_hist(pid, tier, seed):
     return res
 
 
+def run_alloc(pid, tier, seed):
+    vh = vlib.build_harness()
+    r1 = []
+    if pid == "C20":
+        r1.append(vlib.model_check("Hints.tla", "MC_Hints.cfg"))
+        for neg in ("MC_Hints_oldA.cfg", "MC_Hints_oldB.cfg", "MC_Hints_oldC.cfg"):
+            r1.append(vlib.model_check("Hints.tla", neg, expect_violation="Linear"))
+    else:
+        r1.append(vlib.model_check("MC_ZeroAlloc.tla", "MC_ZeroAlloc.cfg"))
+    g = vlib.run_gen(vh, "alloc", tier, seed, only="zero" if pid == "C19" else "mem", shards=16)
+    res = {"r1": r1, "gens": [g]}
+    if "hang" in g:
+        res["hang"] = g["hang"]
+        return res
+    bads, consumed, notes = vlib.validate("TraceAlloc.tla", "TraceAlloc.cfg", g["files"], xmx="3g")
+    res.update(bads=bads, consumed=consumed, notes=notes)
+    owed = 0
+    for n in notes:
+        m = __import__("re").search(r'"zero_owed", (\d+)', n)
+        if m:
+            owed += int(m.group(1))
+    res["cov_zero_alloc_obligations_evaluated"] = owed
+    if pid == "C19" and owed < 100:
+        raise Infra("C19 is vacuous: zero allocations were owed in only %d events" % owed)
+    return res
+
+
 FAMILIES = {
+    "alloc": {"run": run_alloc},
     "hist": {"run": run_hist},
     "compose": {"run": run_compose},
     "trees": {"run": run_trees},
@@ -421,6 +449,33 @@ CHECKS.update({
             "level_text": "Each step's result must equal the fresh reader's and the grammar's tree (TLC), and every earlier returned value must "
                           "be unchanged when re-serialised later; the aliasing model shows why fresh allocation per container is required.",
             "level_note": MC_NOTE},
+})
+
+CHECKS.update({
+    "C19": {"family": "alloc", "level": "exploration",
+            "rule": "testing.AllocsPerRun over: 14 integer/float entry points x integers at type bounds; ReadFloat64/DecodeFloat64 x literals on "
+                    "every conversion path (hook-confirmed, incl. the multiprecision fallback) and random literals; bool/null/token readers; "
+                    "ReadStringBytes/UnescapeStringContent x strings with escapes, pairs, invalid UTF-8 x destination prefix/slack with capacity "
+                    ">= input length; SkipValue/SkipValueFast/Valid/HandleArrayValues/HandleObjectValues (handlers returning 0 or the exact offset "
+                    "via SkipValue) x nests up to 9999 and random containers with a Buffer warmed on a document at least as deep; "
+                    "distinct = distinct (function, input, destination shape)",
+            "technique": "TLA+ ZeroOwed predicate (success, buffer warm depth via the machine's MaxDepthReached, destination capacity) decides when zero is owed; allocation counts recorded by the Go runtime validated by TLC (R3)",
+            "level_text": "The allocation count is measured by the Go runtime; the specification decides from the history (warm-up document "
+                          "depth computed with the grammar machine, destination capacity, success) whether zero is owed, and TLC checks "
+                          "owed => 0 on every recorded measurement; the run is rejected as vacuous if fewer than 100 obligations were owed.",
+            "level_note": "sampled inputs; numbers come from testing.AllocsPerRun (5 runs after one warm call); handlers are pre-allocated pointer receivers"},
+    "C20": {"family": "alloc", "level": "model_checking",
+            "rule": "bytes allocated (runtime.MemStats.TotalAlloc) for 16 document shapes (ordinary and adversarial: big container then small "
+                    "siblings/children, alternating sizes, escapes at every nesting level, escape then long tail, deep nests) at 3 (thorough 4) "
+                    "scales 4x apart through ReadValue / SkipValue / Valid / SkipValueFast / traversals, plus 9 histories on one reader/buffer "
+                    "(large document, then 2000 (thorough 20000) small succeeding or failing documents); GOMAXPROCS fixed to 4",
+            "technique": "TLA+ allocation-policy model with amortised-linearity invariant (R1; three negative configs reproduce the pre-fix policies) + TLC accounting of recorded allocation totals: absolute bound and scale-ratio test (R3)",
+            "level_text": "The hint and scratch policies are model-checked for amortised linearity (alloc <= 2*input + potential) and the three "
+                          "pre-fix policies are kept as configurations that must fail; measured totals are checked by TLC against "
+                          "8192 B per input byte + 16 KiB per call, a 64 B/byte carry-over from earlier documents, and per-byte cost at most "
+                          "doubling when the size quadruples.",
+            "level_note": "constants have >= 8x margin over the worst legitimate shape measured (nested arrays: ~600 B/B at GOMAXPROCS=4, dominated "
+                          "by sync.Pool's per-P arrays); adversarial shapes are the ones the policy model's counterexamples suggest, scaled up"},
 })
 
 NOT_APPLICABLE = {}
